@@ -141,7 +141,9 @@ def set_owner_process(uid, gid, initgroups=False):
     """ set user and group of workers processes """
 
     if gid:
-        if uid:
+        if initgroups:
+            # also when only the group is configured (uid is then the
+            # master's own, possibly 0)
             try:
                 username = get_username(uid)
             except KeyError:
